@@ -1,1 +1,242 @@
-//! harness crate vh_batcher
+//! Deterministic scheduling of real `emit_batcher` senders, flushers and the receiver.
+//!
+//! Threads of the code under test park at the cfg-guarded `verif::point` calls that precede
+//! every acquisition of the channel's state lock (and at the harness-owned `wait` /
+//! `on_batch` closures of `Receiver::exec`).  The driver grants one step at a time, so the
+//! interleaving of critical sections is exactly the one a TLC behaviour prescribes.
+use std::cell::Cell;
+use std::collections::HashMap;
+use std::sync::{Arc, Condvar, Mutex};
+use std::time::{Duration, Instant};
+
+pub use emit_batcher::verif::{Event, Snapshot};
+
+#[derive(Clone, Debug, PartialEq)]
+pub enum Cmd {
+    Go,
+    /// outcome for the in-flight attempt: ("ok"|"fail"|"retry"|"panic"|"panicFut", remainder)
+    Outcome(String, Vec<i64>),
+    Kill,
+    Abort,
+}
+
+#[derive(Clone, Debug, PartialEq)]
+pub enum Status {
+    Running,
+    Parked(&'static str),
+    Finished,
+}
+
+struct Slot {
+    status: Status,
+    grant: Option<Cmd>,
+    // one condvar per actor: a grant wakes only the thread it is meant for
+    wake: Arc<Condvar>,
+}
+
+pub struct Sched {
+    st: Mutex<HashMap<String, Slot>>,
+    // the driver waits here for an actor to settle
+    cv: Condvar,
+    pub events: Mutex<Vec<(String, Event)>>,
+}
+
+thread_local! {
+    static ME: Cell<Option<&'static str>> = const { Cell::new(None) };
+}
+
+pub struct AbortToken;
+
+impl Sched {
+    pub fn new() -> Arc<Self> {
+        Arc::new(Sched { st: Mutex::new(HashMap::new()), cv: Condvar::new(), events: Mutex::new(Vec::new()) })
+    }
+
+    /// Register the calling thread as actor `name`.
+    pub fn register(&self, name: &str) {
+        let leaked: &'static str = Box::leak(name.to_string().into_boxed_str());
+        ME.with(|m| m.set(Some(leaked)));
+        self.st.lock().unwrap().insert(name.to_string(), Slot { status: Status::Running, grant: None, wake: Arc::new(Condvar::new()) });
+        self.cv.notify_all();
+    }
+
+    pub fn me() -> Option<&'static str> {
+        ME.with(|m| m.get())
+    }
+
+    /// Park the calling (registered) thread until the driver grants it a step.
+    pub fn park(&self, site: &'static str) -> Cmd {
+        let Some(me) = Self::me() else { return Cmd::Go };
+        let mut st = self.st.lock().unwrap();
+        st.get_mut(me).unwrap().status = Status::Parked(site);
+        let wake = st.get(me).unwrap().wake.clone();
+        self.cv.notify_all();
+        loop {
+            if let Some(cmd) = st.get_mut(me).unwrap().grant.take() {
+                st.get_mut(me).unwrap().status = Status::Running;
+                if cmd == Cmd::Abort {
+                    drop(st);
+                    std::panic::resume_unwind(Box::new(AbortToken));
+                }
+                return cmd;
+            }
+            st = wake.wait(st).unwrap();
+        }
+    }
+
+    pub fn finish(&self) {
+        if let Some(me) = Self::me() {
+            self.st.lock().unwrap().get_mut(me).unwrap().status = Status::Finished;
+            self.cv.notify_all();
+        }
+    }
+
+    /// Wait until `actor` is parked or finished (None on timeout = the thread is stuck
+    /// somewhere that is not a scheduling point).
+    pub fn wait_settled(&self, actor: &str, timeout: Duration) -> Option<Status> {
+        let deadline = Instant::now() + timeout;
+        let mut st = self.st.lock().unwrap();
+        loop {
+            if let Some(slot) = st.get(actor) {
+                if slot.grant.is_none() && slot.status != Status::Running {
+                    return Some(slot.status.clone());
+                }
+            }
+            let now = Instant::now();
+            if now >= deadline {
+                return None;
+            }
+            st = self.cv.wait_timeout(st, deadline - now).unwrap().0;
+        }
+    }
+
+    /// Grant `actor` one step and wait until it parks again or finishes.
+    pub fn step(&self, actor: &str, cmd: Cmd, timeout: Duration) -> Option<Status> {
+        {
+            let mut st = self.st.lock().unwrap();
+            let slot = st.get_mut(actor)?;
+            if slot.status == Status::Finished {
+                return Some(Status::Finished);
+            }
+            slot.grant = Some(cmd);
+            slot.wake.notify_all();
+        }
+        self.wait_settled(actor, timeout)
+    }
+
+    pub fn status(&self, actor: &str) -> Option<Status> {
+        self.st.lock().unwrap().get(actor).map(|s| s.status.clone())
+    }
+
+    pub fn actors(&self) -> Vec<String> {
+        self.st.lock().unwrap().keys().cloned().collect()
+    }
+}
+
+/// The hooks installed into emit_batcher: park registered threads at `point`, collect events.
+pub struct SchedHooks(pub Arc<Sched>);
+
+impl emit_batcher::verif::Hooks for SchedHooks {
+    fn point(&self, site: &'static str) {
+        let _ = self.0.park(site);
+    }
+    fn event(&self, event: Event) {
+        let who = Sched::me().unwrap_or("env").to_string();
+        self.0.events.lock().unwrap().push((who, event));
+    }
+}
+
+// ---------------------------------------------------------------------------------------
+// Level-A recording: the observable trace that spec/ChannelTrace.tla validates.
+
+use std::cell::RefCell;
+use vh_common::{json, Value};
+
+thread_local! {
+    static CUR_ITEM: Cell<i64> = const { Cell::new(-1) };
+    static CUR_W: RefCell<(String, bool)> = const { RefCell::new((String::new(), false)) };
+}
+
+/// The item the calling thread is about to send (attached to the hook event of its send).
+pub fn set_current_item(item: i64) {
+    CUR_ITEM.with(|c| c.set(item));
+}
+/// The watcher id the calling thread is about to register, and whether its callback logs `Fired`.
+pub fn set_current_watcher(w: &str, observed: bool) {
+    CUR_W.with(|c| *c.borrow_mut() = (w.to_string(), observed));
+}
+
+/// Collects level-A events, ordered by the global sequence number of emit_batcher's hooks.
+pub struct Recorder {
+    pub events: Mutex<Vec<(u64, Value)>>,
+    /// only events of this channel are recorded (0 = any)
+    pub chan: std::sync::atomic::AtomicUsize,
+}
+
+impl Recorder {
+    pub fn new() -> Arc<Self> {
+        Arc::new(Recorder { events: Mutex::new(Vec::new()), chan: std::sync::atomic::AtomicUsize::new(0) })
+    }
+    /// Log a harness-side event now.
+    pub fn log(&self, v: Value) {
+        let seq = emit_batcher::verif::next_seq();
+        self.events.lock().unwrap().push((seq, v));
+    }
+    /// Translate a hook event.
+    pub fn hook(&self, e: &Event) {
+        let want = self.chan.load(std::sync::atomic::Ordering::SeqCst);
+        if want != 0 && e.chan != want {
+            return;
+        }
+        let v = match e.kind {
+            "send" => json!({"ev": "Send", "item": CUR_ITEM.with(|c| c.get()), "pushed": e.b == 1, "trunc": e.a == 1, "qlen": e.snapshot.unwrap().pending}),
+            "try_send" => json!({"ev": "TrySend", "item": CUR_ITEM.with(|c| c.get()), "code": e.a, "qlen": e.snapshot.unwrap().pending}),
+            "when_flushed" => {
+                let (w, obs) = CUR_W.with(|c| c.borrow().clone());
+                json!({"ev": "FlushReq", "w": w, "obs": obs})
+            }
+            "take" => json!({"ev": "Take", "n": e.snapshot.unwrap().pending}),
+            "take_empty" => json!({"ev": "TakeEmpty"}),
+            "drop_sender_begin" => json!({"ev": "Closing", "by": "sender"}),
+            "drop_sender_end" => json!({"ev": "Closed", "by": "sender"}),
+            "drop_receiver_begin" => json!({"ev": "Closing", "by": "receiver"}),
+            "drop_receiver_end" => json!({"ev": "Closed", "by": "receiver"}),
+            "exec_return" => json!({"ev": "Exit"}),
+            _ => return,
+        };
+        self.events.lock().unwrap().push((e.seq, v));
+    }
+    /// The trace in sequence order, framed by Reset / End.
+    pub fn finish(&self, cap: usize, terminal: bool) -> Vec<Value> {
+        let mut evs = std::mem::take(&mut *self.events.lock().unwrap());
+        evs.sort_by_key(|(s, _)| *s);
+        let mut out = vec![json!({"ev": "Reset", "cap": cap})];
+        out.extend(evs.into_iter().map(|(_, v)| v));
+        out.push(json!({"ev": "End", "terminal": terminal}));
+        out
+    }
+}
+
+/// Hooks that both schedule (park registered threads) and record.
+pub struct SchedRecHooks(pub Arc<Sched>, pub Arc<Recorder>);
+
+impl emit_batcher::verif::Hooks for SchedRecHooks {
+    fn point(&self, site: &'static str) {
+        let _ = self.0.park(site);
+    }
+    fn event(&self, event: Event) {
+        let who = Sched::me().unwrap_or("env").to_string();
+        self.1.hook(&event);
+        self.0.events.lock().unwrap().push((who, event));
+    }
+}
+
+/// Hooks that only record (OS-scheduled stress runs).
+pub struct RecHooks(pub Arc<Recorder>);
+
+impl emit_batcher::verif::Hooks for RecHooks {
+    fn point(&self, _: &'static str) {}
+    fn event(&self, event: Event) {
+        self.0.hook(&event);
+    }
+}
